@@ -25,6 +25,7 @@ import warnings
 import torch
 
 from ..extract import c15_dispatch
+from ..extract import c15_rejections
 
 # --------------------------------------------------------------------------------------------------------------
 # instances
@@ -312,6 +313,14 @@ EXACT = {"torch.add", "torch.sub", "torch.mul", "torch.matmul", "torch.clone", "
          "torch.squeeze", "torch.unsqueeze", "torch.sum", "torch.diagonal", "torch.isclose", "torch.abs", "torch.div",
          "torch.Tensor.add", "torch.Tensor.sub", "torch.Tensor.mul", "torch.Tensor.matmul"}
 SHAPE_ONLY = {"torch.clone", "torch.numel", "torch.transpose", "torch.permute", "torch.squeeze", "torch.unsqueeze", "torch.isclose"}
+# functions that reject by type / shape only (never by value): new rejections are reported
+STRICT = {"torch.add", "torch.sub", "torch.mul", "torch.div", "torch.matmul", "torch.isclose", "torch.clone", "torch.numel",
+          "torch.transpose", "torch.permute", "torch.squeeze", "torch.unsqueeze", "torch.sum", "torch.diagonal",
+          "torch.Tensor.add", "torch.Tensor.sub", "torch.Tensor.mul", "torch.Tensor.matmul", "pyop"}
+# argument forms a method may decline with its own NotImplementedError (today it silently ignores them: open finding)
+LEGIT_NOT_IMPLEMENTED = {("torch.diagonal", "batch-dims")}
+BASELINE_OUT = None   # dict while (re)recording the rejection baseline (development only, see record_baseline)
+
 # one-operand numeric functions whose *method* semantics (matrix function vs elementwise, symmetric-only eigh, ...) is the
 # business of C04-C06: dispatch == method is checked exactly, disagreement with dense torch is only counted
 METHOD_LEVEL = {"torch.abs", "torch.exp", "torch.log", "torch.sqrt", "torch.inverse", "torch.logdet", "torch.prod", "torch.linalg.cholesky",
@@ -404,6 +413,20 @@ def operand_kinds(rng, cname, b, n, dt, seedbase):
     kinds["scalar"] = lambda: sc
     isc = rng.choice([-1, 2, 3])
     kinds["int"] = lambda: isc
+    # constants shaped like a matrix: (1,1), and one constant per batch member (*batch,1,1) with pairwise different values
+    c11 = torch.tensor([[float(rng.choice([-2, 2, 4]))]], dtype=dt)
+    kinds["const11"] = lambda: c11
+    if b:
+        pool = [2.0, -2.0, 4.0, -4.0, 8.0, -8.0, 0.5, -0.5, 16.0, -16.0, 0.25, -0.25]
+        rng.shuffle(pool)
+        nbm = 1
+        for x in b:
+            nbm *= x
+        bc = torch.tensor([pool[i % len(pool)] for i in range(nbm)], dtype=dt).reshape(*b, 1, 1)
+        kinds["bconst"] = lambda: bc
+        if len(b) >= 2:
+            bp = torch.tensor([pool[(i + 3) % len(pool)] for i in range(b[-1])], dtype=dt).reshape(b[-1], 1, 1)
+            kinds["bconst-partial"] = lambda: bp
     s1, s2, s3 = (rng.randrange(2 ** 31) for _ in range(3))
     unrelated = "DiagLinearOperator" if cname in ("DenseLinearOperator",) else "DenseLinearOperator"
     if dt == torch.float64:
@@ -418,40 +441,69 @@ def templates_first(fkey, b, n, dt, rng, kinds):
     """[(label, extra positional args (thunks or values), kwargs)] for torch.f(op, *extra, **kwargs)"""
     nb = len(b)
     K = lambda k: ("kind", k)  # noqa: E731
+    if fkey == "torch.clone":
+        return [("()", [], {}), ("memory_format", [], {"memory_format": torch.contiguous_format})]
+    if fkey in ("torch.linalg.eigh", "torch.linalg.eigvalsh"):
+        return [("()", [], {}), ("UPLO", [], {"UPLO": "U"})]
+    if fkey == "torch.linalg.svd":
+        return [("()", [], {}), ("full_matrices", [], {"full_matrices": False})]
     if fkey in UNARY_PLAIN:
         return [("()", [], {})]
     if fkey == "torch.linalg.cholesky":
-        return [("()", [], {}), ("upper", [], {"upper": True})]
+        return [("()", [], {}), ("upper", [], {"upper": True}), ("upper=False", [], {"upper": False})]
     if fkey == "torch.diagonal":
-        return [("()", [], {}), ("dims", [], {"dim1": -2, "dim2": -1}), ("offset0", [0], {}), ("offset1", [1], {}),
-                ("dims-rev", [], {"dim1": -1, "dim2": -2})]
-    if fkey == "torch.transpose":
-        res = [("-1,-2", [-1, -2], {}), ("-2,-1", [-2, -1], {}), (f"{nb},{nb + 1}", [nb, nb + 1], {})]
+        res = [("()", [], {}), ("dims", [], {"dim1": -2, "dim2": -1}), ("offset0", [0], {}), ("offset1", [1], {}),
+               ("dims-rev", [], {"dim1": -1, "dim2": -2}), ("offset-1", [-1], {}), ("kw-offset0+dims", [], {"offset": 0, "dim1": -2, "dim2": -1}),
+               ("pos-dims", [], {"dim1": nb, "dim2": nb + 1}), ("positional", [0, -2, -1], {}),
+               ("kw-offset1+dims", [], {"offset": 1, "dim1": -2, "dim2": -1})]
         if nb:
-            res += [("0,-1", [0, -1], {})]
+            res += [("batch-dims", [], {"dim1": 0, "dim2": -1})]
+        return res
+    if fkey == "torch.transpose":
+        res = [("-1,-2", [-1, -2], {}), ("-2,-1", [-2, -1], {}), (f"{nb},{nb + 1}", [nb, nb + 1], {}), ("mixed-sign", [nb, -1], {}),
+               ("same", [-1, -1], {}), ("kw-dim0-dim1", [], {"dim0": -1, "dim1": -2})]
+        if nb:
+            res += [("0,-1", [0, -1], {}), ("-3,-1", [-3, -1], {})]
+        if nb >= 2:
+            res += [("0,1", [0, 1], {}), ("-4,-3", [-4, -3], {})]
         return res
     if fkey == "torch.permute":
         ident = tuple(range(nb + 2))
-        res = [("identity", [ident], {}), ("swap-mat", [ident[:-2] + (nb + 1, nb)], {}), ("neg", [tuple(range(-nb - 2, 0))], {})]
+        res = [("identity", [ident], {}), ("swap-mat", [ident[:-2] + (nb + 1, nb)], {}), ("neg", [tuple(range(-nb - 2, 0))], {}),
+               ("kw-dims", [], {"dims": ident}), ("list", [list(ident)], {})]
+        if nb >= 2:
+            res += [("batch-perm", [(1, 0) + ident[2:]], {}), ("batch-perm-neg", [(-3, -4, -2, -1)], {})]
+        if nb:
+            res += [("batch-into-matrix", [(nb,) + ident[:nb] + (nb + 1,)], {})]
         return res
     if fkey == "torch.squeeze":
-        return [("0", [0], {}), ("-1", [-1], {})]
+        return [("0", [0], {}), ("-1", [-1], {}), ("none", [], {}), ("dim=0", [], {"dim": 0}), ("pos-last", [nb + 1], {}),
+                ("neg-first", [-(nb + 2)], {})]
     if fkey == "torch.unsqueeze":
-        return [("0", [0], {})] + ([("1", [1], {})] if nb else [])
+        return [("0", [0], {}), ("dim=0", [], {"dim": 0}), ("-1", [-1], {}), ("neg-first", [-(nb + 3)], {}), ("-3", [-3], {})] + \
+               ([("1", [1], {})] if nb else [])
     if fkey == "torch.sum":
-        return [("-1", [-1], {}), ("-2", [-2], {}), ("dim=-1", [], {"dim": -1})] + ([("0", [0], {})] if nb else []) + [("all", [], {})]
+        return [("-1", [-1], {}), ("-2", [-2], {}), ("dim=-1", [], {"dim": -1}), ("pos-last", [nb + 1], {}), ("pos-rows", [nb], {}),
+                ("tuple", [(-1, -2)], {}), ("dim=tuple", [], {"dim": (-2, -1)}), ("keepdim", [-1], {"keepdim": True}),
+                ("dim=-2,keepdim", [], {"dim": -2, "keepdim": True})] + \
+               ([("0", [0], {}), ("neg-batch", [-3], {}), ("dim=0,keepdim", [], {"dim": 0, "keepdim": True})] if nb else []) + [("all", [], {})]
     if fkey == "torch.prod":
-        return [("0", [0], {})] + [("-1", [-1], {})]
+        return [("0", [0], {}), ("-1", [-1], {}), ("dim=0", [], {"dim": 0}), ("-2", [-2], {}), ("keepdim", [0], {"keepdim": True})] + \
+               ([("neg-batch", [-3], {})] if nb else [])
     if fkey == "torch.linalg.solve":
         B = imat(rng, *b, n, 2, dtype=dt)
         v = imat(rng, n, 1, dtype=dt)
-        return [("mat", [B], {}), ("col-bcast", [v], {})]
+        Bl = imat(rng, *b, 2, n, dtype=dt)
+        return [("mat", [B], {}), ("col-bcast", [v], {}), ("left=True", [B], {"left": True}), ("left=False", [Bl], {"left": False})]
     if fkey == "torch.linalg.solve_triangular":
         B = imat(rng, *b, n, 2, dtype=dt)
-        return [("lower", [B], {"upper": False}), ("upper", [B], {"upper": True})]
+        Bl = imat(rng, *b, 2, n, dtype=dt)
+        return [("lower", [B], {"upper": False}), ("upper", [B], {"upper": True}), ("left=False", [Bl], {"upper": False, "left": False}),
+                ("unitriangular", [B], {"upper": False, "unitriangular": True}), ("left=True", [B], {"upper": False, "left": True})]
     if fkey == "torch.isclose":
         return [("tensor", [K("self-dense")], {}), ("tensor-off", [K("tensor")], {}), ("rtol", [K("double-dense")], {"rtol": 0.5, "atol": 0.0}),
-                ("op", [K("op-same")], {})]
+                ("op", [K("op-same")], {}), ("equal_nan", [K("self-dense")], {"equal_nan": True}), ("kw-other", [], {"other": K("self-dense")}),
+                ("atol", [K("tensor")], {"rtol": 0.0, "atol": 2.0})]
     if fkey == "torch.matmul":
         M = imat(rng, *b, n, 2, dtype=dt)
         v = imat(rng, n, dtype=dt)
@@ -460,16 +512,22 @@ def templates_first(fkey, b, n, dt, rng, kinds):
         if nb:
             res += [("mat-bcast", [Mb], {})]
         res += [(k, [K(k)], {}) for k in ("op-unrelated", "op-same", "op-super") if k in kinds]
+        res += [("kw-other", [], {"other": K("tensor")}), ("out", [K("tensor")], {"out": K("outbuf")})]
         return res
     if fkey in ("torch.add", "torch.sub"):
         res = [(k, [K(k)], {}) for k in kinds]
         res += [(k + "/alpha", [K(k)], {"alpha": 2}) for k in ("tensor", "op-unrelated", "op-same", "op-super") if k in kinds]
+        res += [("tensor/alpha-float", [K("tensor")], {"alpha": -1.5}), ("kw-other", [], {"other": K("tensor")}),
+                ("kw-other/alpha", [], {"other": K("tensor"), "alpha": 2}), ("out", [K("tensor")], {"out": K("outbuf")})]
         return res
     if fkey == "torch.mul":
-        return [(k, [K(k)], {}) for k in kinds]
+        return [(k, [K(k)], {}) for k in kinds] + [("kw-other", [], {"other": K("tensor")}), ("kw-other-0d", [], {"other": K("0d")}),
+                                                    ("out", [K("tensor")], {"out": K("outbuf")})]
     if fkey == "torch.div":
         D = inz(rng, *b, n, n, dtype=dt)
-        return [("tensor-nz", [D], {})] + [(k, [K(k)], {}) for k in ("0d", "scalar", "int", "op-unrelated", "op-super") if k in kinds]
+        return [("tensor-nz", [D], {})] + \
+               [(k, [K(k)], {}) for k in ("0d", "scalar", "int", "const11", "bconst", "bconst-partial", "op-unrelated", "op-super") if k in kinds] + \
+               [("kw-other-0d", [], {"other": K("0d")}), ("rounding_mode", [K("0d")], {"rounding_mode": "floor"})]
     # unknown registered function: generic attempts
     return [("()", [], {}), ("tensor", [K("tensor")], {})]
 
@@ -486,13 +544,14 @@ def templates_second(fkey, b, n, dt, rng, kinds):
         if fkey == "torch.matmul":
             res += [("0d", K("0d"), {}), ("tsub", ("tsub",), {})]
             res += [(k, K(k), {}) for k in ("op-unrelated", "op-same", "op-super") if k in kinds]
+            res += [("kw-op", K("tensor"), {"other": SELF}), ("kw-input+op", None, {"input": K("tensor"), "other": SELF})]
         return res
     if fkey == "torch.isclose":
         return [("tensor", K("self-dense"), {}), ("tensor-off", K("tensor"), {}), ("rtol", K("half-dense"), {"rtol": 0.5, "atol": 0.0}),
                 ("op-super", K("op-super"), {})] if "op-super" in kinds else \
                [("tensor", K("self-dense"), {}), ("tensor-off", K("tensor"), {}), ("rtol", K("half-dense"), {"rtol": 0.5, "atol": 0.0})]
     if fkey.startswith("torch.Tensor."):
-        ks = [k for k in ("tensor", "tensor-bcast", "0d") if k in kinds]
+        ks = [k for k in ("tensor", "tensor-bcast", "0d", "const11", "bconst", "bconst-partial") if k in kinds]
         res = [(k, K(k), {}) for k in ks]
         if fkey in ("torch.Tensor.add", "torch.Tensor.sub"):
             res += [("tensor/alpha", K("tensor"), {"alpha": 2})]
@@ -500,16 +559,30 @@ def templates_second(fkey, b, n, dt, rng, kinds):
     res = [(k, K(k), {}) for k in kinds]
     res += [("tsub", ("tsub",), {}), ("foreign", ("foreign",), {})]
     if fkey in ("torch.add", "torch.sub"):
-        res += [(k + "/alpha", K(k), {"alpha": 2}) for k in ("tensor", "op-super") if k in kinds]
+        res += [(k + "/alpha", K(k), {"alpha": 2}) for k in ("tensor", "op-super", "0d") if k in kinds]
+        res += [("tensor/alpha-float", K("tensor"), {"alpha": -1.5})]
+    res += [("kw-op", K("tensor"), {"other": SELF}), ("kw-input+op", None, {"input": K("tensor"), "other": SELF})]
     return res
 
+
+SELF = ("self",)   # the operator under test, passed by keyword
 
 PYOPS = [("T_matmul_op", "torch.Tensor.matmul", lambda T, op: T @ op), ("T_add_op", "torch.Tensor.add", lambda T, op: T + op),
          ("T_sub_op", "torch.Tensor.sub", lambda T, op: T - op), ("T_mul_op", "torch.Tensor.mul", lambda T, op: T * op),
          ("T_div_op", "torch.Tensor.div", lambda T, op: T / op),
          ("op_matmul_T", None, lambda T, op: op @ T), ("op_add_T", None, lambda T, op: op + T), ("op_sub_T", None, lambda T, op: op - T),
          ("op_mul_T", None, lambda T, op: op * T), ("op_div_2", None, lambda T, op: op / 2.0), ("2_mul_op", None, lambda T, op: 2.0 * op),
-         ("op_mul_2", None, lambda T, op: op * 2.0), ("v_matmul_op", "torch.Tensor.matmul", lambda T, op: T[..., 0, :] @ op)]
+         ("op_mul_2", None, lambda T, op: op * 2.0), ("v_matmul_op", "torch.Tensor.matmul", lambda T, op: T[..., 0, :] @ op),
+         ("op_mul_0d", None, lambda T, op, c: op * c, "0d"), ("0d_mul_op", "torch.Tensor.mul", lambda T, op, c: c * op, "0d"),
+         ("op_div_0d", None, lambda T, op, c: op / c, "0d"),
+         ("op_mul_c11", None, lambda T, op, c: op * c, "const11"), ("c11_mul_op", "torch.Tensor.mul", lambda T, op, c: c * op, "const11"),
+         ("op_div_c11", None, lambda T, op, c: op / c, "const11"),
+         ("op_mul_bconst", None, lambda T, op, c: op * c, "bconst"), ("bconst_mul_op", "torch.Tensor.mul", lambda T, op, c: c * op, "bconst"),
+         ("op_div_bconst", None, lambda T, op, c: op / c, "bconst"),
+         ("op_mul_bpartial", None, lambda T, op, c: op * c, "bconst-partial"),
+         ("bpartial_mul_op", "torch.Tensor.mul", lambda T, op, c: c * op, "bconst-partial"),
+         ("op_div_bpartial", None, lambda T, op, c: op / c, "bconst-partial"),
+         ("op_neg", None, lambda T, op: -op), ("op_rsub_T", None, lambda T, op: op.__rsub__(T)), ("op_radd_T", None, lambda T, op: op.__radd__(T))]
 
 
 # --------------------------------------------------------------------------------------------------------------
@@ -555,7 +628,8 @@ class Group:
         rng = random.Random(self.gseed + 1)
         self.kinds = operand_kinds(rng, self.cname, self.b, self.n, self.opdt, self.gseed)
         A = self.A
-        self.kinds_extra = {"self-dense": lambda: A.clone(), "double-dense": lambda: 2 * A, "half-dense": lambda: A / 2}
+        self.kinds_extra = {"self-dense": lambda: A.clone(), "double-dense": lambda: 2 * A, "half-dense": lambda: A / 2,
+                            "outbuf": lambda: torch.empty_like(A)}
         self.trng = rng
 
     def value(self, spec):
@@ -568,6 +642,9 @@ class Group:
             return FG()
         return spec
 
+    def rej_key(self, fkey, posname, label):
+        return f"{fkey}/{posname}/{self.cname}/{label}/{'b+' if self.b else 'b0'}{'' if self.dt == torch.float64 else '|f32'}"
+
     def payload(self, **kw):
         d = {"class": self.cname, "batch": list(self.batch), "dtype": str(self.dt), "gseed": self.gseed}
         d.update(kw)
@@ -577,15 +654,20 @@ class Group:
     def run_call(self, fkey, fn, pos, label, argspecs, kwargs, table_name, replaying=False):
         """pos = index of the operator under test in the positional arguments; argspecs has `None` there."""
         chk = self.chk
-        cell = f"C15/{fkey}/{'first' if pos == 0 else 'second'}/{self.cname}/{label}/{self.bid}"
+        posname = "first" if pos == 0 else ("second" if pos == 1 else "kw")
+        cell = f"C15/{fkey}/{posname}/{self.cname}/{label}/{self.bid}"
+        kwspecs = kwargs
 
         def mk():
             op = self.op()
-            return [op if s is None else self.value(s) for s in argspecs]
+            return ([op if s is None else self.value(s) for s in argspecs],
+                    {k: (op if v == SELF else self.value(v)) for k, v in kwspecs.items()})
 
-        args1, args2, args3 = mk(), mk(), mk()
-        desc = f"{cell} seed={self.gseed} kwargs={kwargs}"
-        ops_classes = [type(a) for a in args1 if is_op(a)]
+        (args1, kwargs1), (args2, kwargs2), (args3, kwargs3) = mk(), mk(), mk()
+        kwargs = kwargs1
+        kwshow = {k: (arg_token(v) if isinstance(v, torch.Tensor) or is_op(v) else v) for k, v in kwargs1.items()}
+        desc = f"{cell} seed={self.gseed} kwargs={kwshow}"
+        ops_classes = [type(a) for a in list(args1) + list(kwargs1.values()) if is_op(a)]
         names = sorted({v for v in list(self.first.values()) + list(self.second.values())})
         # observe: spy on every handler name that either table could select for this function
         cand = {self.first.get(fkey), self.second.get(fkey)} - {None}
@@ -593,7 +675,7 @@ class Group:
         for s in spies:
             s.__enter__()
         try:
-            r_impl = outcome(lambda: fn(*args1, **kwargs))
+            r_impl = outcome(lambda: fn(*args1, **kwargs1))
         finally:
             for s in reversed(spies):
                 s.__exit__()
@@ -611,8 +693,9 @@ class Group:
             impl_route = f"call {definer}.{nm} swapped={1 if swapped else 0} args={';'.join(toks)}"
             if not order_ok:
                 impl_route += " [positional arguments are not the original ones in this order]"
-            if kw != kwargs:
-                impl_route += f" [kwargs {kw} != {kwargs}]"
+            if set(kw) != set(kwargs1) or any(not (kw[k] is kwargs1[k] or (not isinstance(kw[k], torch.Tensor) and not is_op(kw[k])
+                                                                            and kw[k] == kwargs1[k])) for k in kw):
+                impl_route += f" [kwargs {sorted(kw)} are not the original {sorted(kwargs1)}]"
         elif r_impl[0] == "raise" and from_torch_function(r_impl[1]):
             impl_route = "raise NotImplementedError"
         elif r_impl[0] == "raise" and isinstance(r_impl[1], IndexError) and str(r_impl[1]).startswith("tuple index out of range"):
@@ -622,11 +705,15 @@ class Group:
         else:
             impl_route = "no-handler-observed"
         chk.count("route:" + impl_route.split(" ")[0] + (":" + impl_route.split(" ")[1].split(".")[-1] if impl_route.startswith("call") else ""))
-        line = f"disp {fkey} {';'.join(tokens)}"
+        kwtok = [arg_token(v) for v in kwargs1.values() if isinstance(v, torch.Tensor) or is_op(v) or isinstance(v, FG)]
+        if kwtok:
+            line = f"dispk {fkey} {';'.join(tokens) or '-'} {';'.join(kwtok)}"
+        else:
+            line = f"disp {fkey} {';'.join(tokens)}"
         if not impl_route.startswith("pre-dispatch"):
             self.lines.append((line, impl_route, cell + "/route", self.payload(fkey=fkey, pos=pos, label=label), "route"))
         # method twin: make the call the observation says (if any) directly
-        r_dense = outcome(lambda: fn(*[densify(a) for a in args3], **kwargs))
+        r_dense = outcome(lambda: fn(*[densify(a) for a in args3], **{k: densify(v) for k, v in kwargs3.items()}))
         nontrivial = r_impl[0] == "ok"
         chk.case(desc, nontrivial=nontrivial)
         chk.count("fn:" + fkey)
@@ -640,7 +727,7 @@ class Group:
             swapped = len(args1) > 1 and a[0] is args1[1]
             margs = ([args2[1], args2[0]] + args2[2:]) if swapped else args2
             if is_op(margs[0]):
-                r_meth = outcome(lambda: getattr(margs[0], nm)(*margs[1:], **kwargs))
+                r_meth = outcome(lambda: getattr(margs[0], nm)(*margs[1:], **kwargs2))
                 if r_impl[0] != r_meth[0]:
                     problems.append(("vs-method", f"dispatch {self.short(r_impl)} but method {nm} {self.short(r_meth)}"))
                 elif r_impl[0] == "raise":
@@ -651,7 +738,7 @@ class Group:
                     if d:
                         problems.append(("vs-method", f"dispatch result differs from {nm}(): {d}"))
         # versus dense torch
-        required = fkey in (REQUIRED_FIRST if pos == 0 else REQUIRED_SECOND)
+        required = fkey in (REQUIRED_FIRST if pos == 0 else REQUIRED_SECOND) and pos is not None
         if r_dense[0] == "ok":
             if r_impl[0] == "ok":
                 d = compare_dense(fkey, r_impl[1], r_dense[1], self.A, self.opdt)
@@ -665,17 +752,27 @@ class Group:
                 problems.append(("missing-registration", f"{fkey} is not dispatched although the property lists it: {r_impl[1]}"))
             else:
                 chk.count("rejected:" + type(r_impl[1]).__name__)
+                # ring / shape functions reject by type or shape only: a rejection that the unchanged tree does not have
+                # (baseline harness/extract/c15_rejections.py) is a failure to give the dense result
+                legit = (fkey, label) in LEGIT_NOT_IMPLEMENTED and isinstance(r_impl[1], NotImplementedError) and obs is not None
+                if fkey in STRICT and "fg" not in tokens and not legit:
+                    key = self.rej_key(fkey, posname, label)
+                    if BASELINE_OUT is not None and posname != "kw" and "bconst" not in label:   # never baseline known defects
+                        BASELINE_OUT[key] = type(r_impl[1]).__name__
+                    elif key not in c15_rejections.REJECTED:
+                        problems.append(("raises", f"raises {type(r_impl[1]).__name__}: {str(r_impl[1])[:120]} although torch on the dense "
+                                                   f"operands returns a value and the unchanged tree does not reject this combination"))
         else:
             chk.count("dense-rejects:" + ("impl-ok" if r_impl[0] == "ok" else "impl-raises"))
         ok = True
         for aspect, what in problems:
             ok = False
-            chk.violation(cell + "/" + aspect, f"{fkey}({', '.join(tokens)}{', ' + str(kwargs) if kwargs else ''}): {what}",
+            chk.violation(cell + "/" + aspect, f"{fkey}({', '.join(tokens)}{', ' + str(kwshow) if kwshow else ''}): {what}",
                           self.payload(fkey=fkey, pos=pos, label=label))
         # value line for the Lean denotational layer (unbatched, matrix operands, exact data)
         if (not self.batch and r_impl[0] == "ok" and len(args1) == 2 and fkey in BINARY and fkey != "torch.isclose" and fkey != "torch.div"
                 and all(is_op(x) or (isinstance(x, torch.Tensor) and x.dim() == 2 and x.shape[0] == x.shape[1] == self.n) for x in args1)
-                and set(kwargs) <= {"alpha"} and self.opdt == torch.float64):
+                and set(kwargs) <= {"alpha"} and self.opdt == torch.float64 and float(kwargs.get("alpha", 1)).is_integer()):
             X, Y = (densify(a) for a in args3)
             got = r_impl[2][1]
             if got.dim() == 2 and torch.isfinite(got).all() and (got - got.round()).abs().max() < 1e-6 and \
@@ -698,7 +795,8 @@ class Group:
         for fkey, meth in tab["first"]:
             fn = c15_dispatch.resolve_torch_name(fkey)
             for label, extra, kwargs in templates_first(fkey, self.b, self.n, self.opdt, rng, self.kinds):
-                if any(isinstance(s, tuple) and s[:1] == ("kind",) and s[1] not in self.kinds and s[1] not in self.kinds_extra for s in extra):
+                if any(isinstance(s, tuple) and s[:1] == ("kind",) and s[1] not in self.kinds and s[1] not in self.kinds_extra
+                       for s in list(extra) + list(kwargs.values())):
                     continue
                 if only and (fkey, 0, label) != only:
                     continue
@@ -708,16 +806,30 @@ class Group:
             for label, x, kwargs in templates_second(fkey, self.b, self.n, self.opdt, rng, self.kinds):
                 if isinstance(x, tuple) and x[:1] == ("kind",) and x[1] not in self.kinds and x[1] not in self.kinds_extra:
                     continue
-                if only and (fkey, 1, label) != only:
+                if fkey.startswith("torch.Tensor.") and SELF in kwargs.values():
                     continue
-                self.run_call(fkey, fn, 1, label, [x, None], kwargs, "second")
+                by_kw = SELF in kwargs.values()
+                if only and (fkey, None if by_kw else 1, label) != only:
+                    continue
+                if by_kw:
+                    self.run_call(fkey, fn, None, label, [] if x is None else [x], kwargs, "second")
+                else:
+                    self.run_call(fkey, fn, 1, label, [x, None], kwargs, "second")
         # python operators
-        for label, fkey, f in PYOPS:
+        for entry in PYOPS:
+            label, fkey, f = entry[:3]
             if only and (label, "pyop", label) != only:
                 continue
-            self.run_pyop(label, fkey, f)
-        # unregistered functions (quick tier: on the unbatched instance of every class only)
-        for name, arity in ([] if (self.chk.tier == "quick" and self.batch and not only) else UNREGISTERED):
+            if len(entry) > 3:
+                if entry[3] not in self.kinds:
+                    continue
+                c = self.kinds[entry[3]]()
+                self.run_pyop(label, fkey, lambda T, op, f=f, c=c: f(T, op, c))
+            else:
+                self.run_pyop(label, fkey, f)
+        # unregistered functions (on the unbatched and the (2,)-batched instance of every class; quick: unbatched only)
+        skip_unreg = not only and ((self.chk.tier == "quick" and self.batch) or len(self.batch) > 1 or self.batch == (self.n,))
+        for name, arity in ([] if skip_unreg else UNREGISTERED):
             if only and (name, "unreg", str(arity)) != only:
                 continue
             self.run_unregistered(name, arity)
@@ -744,6 +856,12 @@ class Group:
                 chk.violation(cell + "/missing-registration", f"{label}: {r_impl[1]}", self.payload(pyop=label))
             else:
                 chk.count("rejected:" + type(r_impl[1]).__name__)
+                key = self.rej_key("pyop", "op", label)
+                if BASELINE_OUT is not None and "bconst" not in label and "bpartial" not in label:
+                    BASELINE_OUT[key] = type(r_impl[1]).__name__
+                elif key not in c15_rejections.REJECTED:
+                    chk.violation(cell + "/raises", f"{label}: raises {type(r_impl[1]).__name__}: {str(r_impl[1])[:120]} although the dense "
+                                  f"computation returns a value and the unchanged tree does not reject this combination", self.payload(pyop=label))
             return
         d = compare_dense("torch.add", r_impl[1], r_dense[1], self.A, self.opdt)
         if d:
@@ -856,8 +974,11 @@ def plan(chk, classes):
     """[(class, batch, dtype, seed)] of the tier"""
     groups = []
     for c in classes:
+        n = 4 if c in SIZE4 else 3
         groups.append((c, (), torch.float64, chk.rng.randrange(2 ** 31)))
         groups.append((c, (2,), torch.float64, chk.rng.randrange(2 ** 31)))
+        groups.append((c, (n,), torch.float64, chk.rng.randrange(2 ** 31)))     # batch size == matrix size
+        groups.append((c, (2, 3), torch.float64, chk.rng.randrange(2 ** 31)))   # two batch dims
     if chk.tier == "thorough":
         for c in classes:
             groups.append((c, (), torch.float32, chk.rng.randrange(2 ** 31)))
@@ -924,3 +1045,32 @@ def replay(chk, payload):
         only = (p["unreg"], "unreg", p["arity"])
     g.run(only=only)
     check_lines(chk, g.lines)
+
+
+def record_baseline(seeds=(0, 1, 2, 3, 4, 5), thorough_seeds=(0, 1)):
+    """Development only: (re)record which strict-function cells the tree rejects, merged into
+    harness/extract/c15_rejections.py.  Run on a tree whose rejections are all accepted as legitimate."""
+    import os
+    from ..common import Check
+    global BASELINE_OUT
+    BASELINE_OUT = dict(c15_rejections.REJECTED) if os.environ.get("C15_BASELINE_MERGE") else {}
+    for tier, ss in (("quick", seeds), ("thorough", thorough_seeds)):
+        for sd in ss:
+            chk = Check("C15", tier, sd, replay="/dev/null")
+            chk.prove = lambda *a, **k: True
+            chk.run_driver = lambda *a, **k: None
+            run(chk)
+    path = c15_rejections.__file__
+    with open(path, "w") as fh:
+        fh.write('"""Rejection baseline of the C15 catalogue (generated by harness.checks.c15.record_baseline; do not edit by hand).\n\n'
+                 'Keys: <torch fn>/<operator position>/<class>/<operand-kind label>/<b0|b+>[|f32] for the ring / shape functions\n'
+                 '(STRICT in checks/c15.py) for which the tree raises inside the handler although torch on the dense operands returns a\n'
+                 'value (python scalars for add/sub, out=, keepdim=, shapes a class does not support, ...).  A rejection that is not\n'
+                 'listed here is reported as a violation; a listed cell that starts to work is accepted silently."""\n')
+        fh.write("REJECTED = {\n")
+        for k in sorted(BASELINE_OUT):
+            fh.write(f"    {k!r}: {BASELINE_OUT[k]!r},\n")
+        fh.write("}\n")
+    n = len(BASELINE_OUT)
+    BASELINE_OUT = None
+    return n
